@@ -178,7 +178,13 @@ Record tables := {
   t_writers : list (string * on_exists);        (* every to_* / write_to_* writer of outputs/utils.py *)
   t_new : list (fmt * option string);           (* save_to_files: format -> writer (None = NotImplementedError) *)
   t_old : list (fmt * string);                  (* Outputs.save_to_file: save_methods *)
-  t_old_ext : list (string * string)            (* the extension in each to_* template  f"{name}_?.<ext>" *)
+  t_old_ext : list (string * string);           (* the extension in each to_* template  f"{name}_?.<ext>" *)
+  t_seq_new_stage : bool;   (* Observation._run_single_pipeline hands its outputs to run_pipeline (which then
+                               also saves with the NEW writers, un-suffixed names) *)
+  t_old_all_items : bool;   (* Outputs.save_to_file loops over ALL items of each dict (false: first item only) *)
+  t_old_merge : bool;       (* ... and merges the formats of a bucket named by several dicts (false: replaces) *)
+  t_dask_snapshot : bool    (* run_pipelines_with_dask gives the lazy graph its own copy of the outputs
+                               (false: folder and request are read from the shared object at compute time) *)
 }.
 
 Fixpoint assoc_s {A} (k : string) (l : list (string * A)) : option A :=
@@ -214,12 +220,13 @@ Definition entry := (nat * bucket * fmt * string)%type.    (* run, bucket, forma
 
 Definition lossy (f : fmt) : bool := match f with Png | Jpg | Jpeg => true | _ => false end.
 
-(* the value the probe pipeline writes into bucket b in run r; lossy formats are opaque (-2) *)
-Definition val (r : nat) (b : bucket) : Z := Z.of_nat (16 * S r + bidx b).
-Definition content (r : nat) (b : bucket) (f : fmt) : Z := if lossy f then (-2)%Z else val r b.
+(* the value the probe pipeline writes into bucket b in run r of the ep-th simulation started on one
+   configuration object (ep = 0 for a single simulation); lossy formats are opaque (-2) *)
+Definition val (ep r : nat) (b : bucket) : Z := Z.of_nat (256 * ep + 16 * S r + bidx b).
+Definition content (ep r : nat) (b : bucket) (f : fmt) : Z := if lossy f then (-2)%Z else val ep r b.
 
 (* save_to_files(folder, processor, filenames, overwrite=False) for one run *)
-Fixpoint save_new (T : tables) (its : list (bucket * fmt)) (s : option nat) (run : nat)
+Fixpoint save_new (T : tables) (ep : nat) (its : list (bucket * fmt)) (s : option nat) (run : nat)
          (fs : files) (rep : list entry) : files * list entry * option err :=
   match its with
   | [] => (fs, rep, None)
@@ -228,40 +235,44 @@ Fixpoint save_new (T : tables) (its : list (bucket * fmt)) (s : option nat) (run
       | None | Some None => (fs, rep, Some ENotImplemented)
       | Some (Some w) =>
           let n := render_new b s f in
-          match write_file (beh T w) fs n (content run b f) with
+          match write_file (beh T w) fs n (content ep run b f) with
           | (fs', Raised) => (fs', rep, Some EFileExists)
-          | (fs', _) => save_new T rest s run fs' (rep ++ [(run, b, f, n)])
+          | (fs', _) => save_new T ep rest s run fs' (rep ++ [(run, b, f, n)])
           end
       end
   end.
 
-Definition flow_exposure (T : tables) (req : request) (fs : files) :=
-  save_new T (items req) None 0 fs [].
+Definition flow_exposure (T : tables) (ep : nat) (req : request) (fs : files) :=
+  save_new T ep (items req) None 0 fs [].
 
 (* dask observation: run i saves with suffix i (the per-run file index array) *)
-Fixpoint flow_dask_from (T : tables) (req : request) (n : nat) (run : nat) (fs : files) (rep : list entry)
-  : files * list entry * option err :=
+Fixpoint flow_dask_from (T : tables) (ep : nat) (req : request) (n : nat) (run : nat) (fs : files)
+         (rep : list entry) : files * list entry * option err :=
   match n with
   | O => (fs, rep, None)
   | S n' =>
-      match save_new T (items req) (Some run) run fs rep with
-      | (fs', rep', None) => flow_dask_from T req n' (S run) fs' rep'
+      match save_new T ep (items req) (Some run) run fs rep with
+      | (fs', rep', None) => flow_dask_from T ep req n' (S run) fs' rep'
       | r => r
       end
   end.
 (* run_pipelines_with_dask first runs the first parameter set with un-suffixed names inside a
    TemporaryDirectory (to learn the output shapes): an exception there aborts the observation before
    anything is written into the output directory *)
-Definition flow_dask (T : tables) (req : request) (nruns : nat) (fs : files)
+Definition dask_meta_err (T : tables) (ep : nat) (req : request) : option err :=
+  match save_new T ep (items req) None 0 [] [] with (_, _, e) => e end.
+
+Definition flow_dask (T : tables) (ep : nat) (req : request) (nruns : nat) (fs : files)
   : files * list entry * option err :=
-  match save_new T (items req) None 0 [] [] with
-  | (_, _, Some e) => (fs, [], Some e)
-  | (_, _, None) => flow_dask_from T req nruns 0 fs []
+  match dask_meta_err T ep req with
+  | Some e => (fs, [], Some e)
+  | None => flow_dask_from T ep req nruns 0 fs []
   end.
 
-(* Outputs.save_to_file(processor, run_number=run): only the FIRST item of each dict is used;
-   all_filenames[bucket] is REPLACED when a later dict names the same bucket. *)
-Fixpoint save_old_formats (T : tables) (b : bucket) (fl : list fmt) (run : nat) (fs : files)
+(* Outputs.save_to_file(processor, run_number=run).
+   t_old_all_items = false: only the FIRST item of each dict is used;
+   t_old_merge = false: all_filenames[bucket] is REPLACED when a later dict names the same bucket. *)
+Fixpoint save_old_formats (T : tables) (ep : nat) (b : bucket) (fl : list fmt) (run : nat) (fs : files)
          (part : list (fmt * string)) : files * list (fmt * string) * option err :=
   match fl with
   | [] => (fs, part, None)
@@ -278,10 +289,10 @@ Fixpoint save_old_formats (T : tables) (b : bucket) (fl : list fmt) (run : nat) 
             | None => (fs, part, Some EOther)
             | Some ext =>
                 let n := render_old b run ext in
-                match write_file (beh T w) fs n (content run b f) with
+                match write_file (beh T w) fs n (content ep run b f) with
                 | (fs', Raised) => (fs', part, Some EFileExists)
                 | (fs', _) =>
-                    save_old_formats T b rest run fs'
+                    save_old_formats T ep b rest run fs'
                       (filter (fun x => negb (fmt_eqb (fst x) f)) part ++ [(f, n)])
                 end
             end
@@ -291,41 +302,77 @@ Fixpoint save_old_formats (T : tables) (b : bucket) (fl : list fmt) (run : nat) 
 
 Definition rep_entry := (bucket * list (fmt * string))%type.
 
-Fixpoint save_old (T : tables) (req : request) (run : nat) (fs : files) (acc : list rep_entry)
+Definition part_of (b : bucket) (acc : list rep_entry) : list (fmt * string) :=
+  flat_map (fun x => if bucket_eqb (fst x) b then snd x else []) acc.
+
+(* dict.update: a format already there is replaced, a new one is added *)
+Definition merge_part (old new : list (fmt * string)) : list (fmt * string) :=
+  fold_left (fun (a : list (fmt * string)) x => (filter (fun y => negb (fmt_eqb (fst y) (fst x))) a ++ [x])%list) new old.
+
+Definition upd_acc (T : tables) (acc : list rep_entry) (b : bucket) (part : list (fmt * string)) : list rep_entry :=
+  filter (fun x => negb (bucket_eqb (fst x) b)) acc
+  ++ [(b, if t_old_merge T then merge_part (part_of b acc) part else part)].
+
+Fixpoint save_old_dict (T : tables) (ep : nat) (dct : list (bucket * list fmt)) (run : nat) (fs : files)
+         (acc : list rep_entry) : files * list rep_entry * option err :=
+  match dct with
+  | [] => (fs, acc, None)
+  | (b, fl) :: rest =>
+      match save_old_formats T ep b fl run fs [] with
+      | (fs', part, None) => save_old_dict T ep rest run fs' (upd_acc T acc b part)
+      | (fs', _, Some e) => (fs', acc, Some e)
+      end
+  end.
+
+Fixpoint save_old (T : tables) (ep : nat) (req : request) (run : nat) (fs : files) (acc : list rep_entry)
   : files * list rep_entry * option err :=
   match req with
   | [] => (fs, acc, None)
-  | [] :: _ => (fs, acc, Some EOther)             (* first_item, *_ = {}.items() -> ValueError *)
-  | ((b, fl) :: _) :: rest =>
-      match save_old_formats T b fl run fs [] with
-      | (fs', part, None) =>
-          save_old T rest run fs' (filter (fun x => negb (bucket_eqb (fst x) b)) acc ++ [(b, part)])
-      | (fs', _, Some e) => (fs', acc, Some e)
-      end
+  | dct :: rest =>
+      if t_old_all_items T then
+        match save_old_dict T ep dct run fs acc with
+        | (fs', acc', None) => save_old T ep rest run fs' acc'
+        | r => r
+        end
+      else
+        match dct with
+        | [] => (fs, acc, Some EOther)             (* first_item, *_ = {}.items() -> ValueError *)
+        | first :: _ =>
+            match save_old_dict T ep [first] run fs acc with
+            | (fs', acc', None) => save_old T ep rest run fs' acc'
+            | r => r
+            end
+        end
   end.
 
 Definition entries_of (run : nat) (acc : list rep_entry) : list entry :=
   flat_map (fun x => map (fun fn => (run, fst x, fst fn, snd fn)) (snd x)) acc.
 
-(* sequential observation: run_pipeline(outputs=...) saves with the NEW writers and no suffix
-   (the same names for every run), then save_to_file(run_number=run) saves with the OLD writers and
-   replaces the /output node. *)
-Fixpoint flow_seq_from (T : tables) (req : request) (n : nat) (run : nat) (fs : files) (rep : list entry)
-  : files * list entry * option err :=
+(* sequential observation.  t_seq_new_stage = true: run_pipeline(outputs=...) first saves with the NEW
+   writers and no suffix (the same names for every run); then save_to_file(run_number=run) saves with
+   the OLD writers and replaces the /output node.  An empty request is refused by save_to_file
+   (NotImplementedError). *)
+Fixpoint flow_seq_from (T : tables) (ep : nat) (req : request) (n : nat) (run : nat) (fs : files)
+         (rep : list entry) : files * list entry * option err :=
   match n with
   | O => (fs, rep, None)
   | S n' =>
-      match save_new T (items req) None run fs [] with
+      match (if t_seq_new_stage T then save_new T ep (items req) None run fs []
+             else (fs, [], None)) with
       | (fs1, _, Some e) => (fs1, rep, Some e)
       | (fs1, _, None) =>
-          match save_old T req run fs1 [] with
-          | (fs2, _, Some e) => (fs2, rep, Some e)
-          | (fs2, acc, None) => flow_seq_from T req n' (S run) fs2 (rep ++ entries_of run acc)
+          match req with
+          | [] => (fs1, rep, Some ENotImplemented)
+          | _ =>
+            match save_old T ep req run fs1 [] with
+            | (fs2, _, Some e) => (fs2, rep, Some e)
+            | (fs2, acc, None) => flow_seq_from T ep req n' (S run) fs2 (rep ++ entries_of run acc)
+            end
           end
       end
   end.
-Definition flow_seq (T : tables) (req : request) (nruns : nat) (fs : files) :=
-  flow_seq_from T req nruns 0 fs [].
+Definition flow_seq (T : tables) (ep : nat) (req : request) (nruns : nat) (fs : files) :=
+  flow_seq_from T ep req nruns 0 fs [].
 
 (* ------------------------------------------------------------------ specification (bool) *)
 
@@ -347,10 +394,10 @@ Definition spec_unchanged (before after : files) : bool :=
   forallb (fun x => match lookup (fst x) after with Some c => Z.eqb c (snd x) | None => false end) before.
 
 (* SPEC attribution: every reported name exists and holds the content of the run it is attributed to *)
-Definition spec_attributed (rep : list entry) (after : files) : bool :=
+Definition spec_attributed (ep : nat) (rep : list entry) (after : files) : bool :=
   forallb (fun e => match e with
                     | (r, b, f, n) =>
-                        match lookup n after with Some c => Z.eqb c (content r b f) | None => false end
+                        match lookup n after with Some c => Z.eqb c (content ep r b f) | None => false end
                     end) rep.
 
 Definition count_entries (rep : list entry) (r : nat) (b : bucket) (f : fmt) : nat :=
@@ -480,9 +527,9 @@ Record flow_case := {
 
 Definition run_flow (T : tables) (c : flow_case) :=
   match f_mode c with
-  | MExposure => flow_exposure T (f_req c) (f_pre c)
-  | MSeq => flow_seq T (f_req c) (f_nruns c) (f_pre c)
-  | MDask => flow_dask T (f_req c) (f_nruns c) (f_pre c)
+  | MExposure => flow_exposure T 0 (f_req c) (f_pre c)
+  | MSeq => flow_seq T 0 (f_req c) (f_nruns c) (f_pre c)
+  | MDask => flow_dask T 0 (f_req c) (f_nruns c) (f_pre c)
   end.
 
 Definition opt_err_eqb (a b : option err) : bool :=
@@ -492,7 +539,10 @@ Definition flow_model_ok (T : tables) (c : flow_case) : bool :=
   match run_flow T c with
   | (fs, rep, e) =>
       opt_err_eqb e (f_err c)
-      && same_set file_eqb fs (f_files c)
+      && (same_set file_eqb fs (f_files c)
+          || match f_mode c, e with MDask, Some _ => true | _, _ => false end)
+         (* a parallel observation that fails: which of the OTHER runs' files got written before the
+            exception surfaced is a matter of scheduling; only the outcome is compared *)
       && match e with None => same_set entry_eqb rep (f_rep c) | Some _ => true end
   end.
 
@@ -502,7 +552,7 @@ Definition flow_spec_ok (T : tables) (c : flow_case) : bool :=
   spec_unchanged (f_pre c) (f_files c)
   && match f_err c with
      | Some _ => true
-     | None => spec_attributed (f_rep c) (f_files c)
+     | None => spec_attributed 0 (f_rep c) (f_files c)
                && spec_complete (f_req c) (match f_mode c with MExposure => 1 | _ => f_nruns c end) (f_rep c)
                && spec_named (f_mode c) (f_rep c)
      end.
@@ -515,3 +565,61 @@ Fixpoint bad_indices {A} (ok : A -> bool) (l : list A) (i : nat) : list nat :=
 
 Definition mismatches {A} (ok : A -> bool) (l : list A) : list nat := bad_indices ok l 0.
 Definition violations {A} (ok : A -> bool) (l : list A) : list nat := bad_indices ok l 0.
+
+(* ------------------------------------------------------------------ automatic numbering
+   apply_run_number(template "<name>_?.<ext>", run_number=None): the "?" becomes "*", the directory is
+   globbed, get_number() reads the trailing digits of every matching stem (0 if there are none), and the
+   new file gets the largest number + 1 (1 if nothing matches).  A matching file is represented by the
+   part of its name the "*" stands for. *)
+
+Definition is_digit_b (c : ascii) : bool :=
+  (Nat.leb 48 (nat_of_ascii c) && Nat.leb (nat_of_ascii c) 57)%bool.
+
+(* (the string is all digits, its value) — int() of a digit string, leading zeros allowed *)
+Fixpoint digits_val (s : string) (acc : nat) : option nat :=
+  match s with
+  | EmptyString => Some acc
+  | String c r => if is_digit_b c then digits_val r (10 * acc + (nat_of_ascii c - 48)) else None
+  end.
+
+(* re.search(r"\d+$", stem): the value of the longest all-digit suffix, None if the stem does not end in a digit *)
+Fixpoint trailing_number (s : string) : option nat :=
+  match s with
+  | EmptyString => None
+  | String c r =>
+      match digits_val (String c r) 0 with
+      | Some v => Some v
+      | None => trailing_number r
+      end
+  end.
+
+Definition get_number (mid : string) : nat :=
+  match trailing_number mid with Some v => v | None => 0 end.
+
+Record auto_cfg := {
+  a_step : nat;        (* next_num = num_list[-1] + a_step *)
+  a_first : nat        (* next_num = a_first when nothing matches *)
+}.
+
+Definition next_number (A : auto_cfg) (mids : list string) : nat :=
+  match mids with
+  | [] => a_first A
+  | _ => fold_right Nat.max 0 (map get_number mids) + a_step A
+  end.
+
+(* the "*" part of the name the new file gets *)
+Definition auto_mid (A : auto_cfg) (mids : list string) : string := dec (next_number A mids).
+
+(* correspondence: a writer called with run_number=None on a directory holding the given matches *)
+Record auto_case := {
+  au_mids : list string;        (* the "*" parts of the matching names present before *)
+  au_new : string;              (* implementation: the "*" part of the returned name *)
+  au_intact : bool;             (* implementation: every file present before still has its bytes *)
+  au_created : nat              (* implementation: number of new files *)
+}.
+
+Definition auto_model_ok (A : auto_cfg) (c : auto_case) : bool :=
+  String.eqb (auto_mid A (au_mids c)) (au_new c).
+
+Definition auto_spec_ok (c : auto_case) : bool :=
+  negb (mem (au_new c) (au_mids c)) && au_intact c && Nat.eqb (au_created c) 1.
